@@ -4,6 +4,7 @@ import (
 	"encoding/json"
 	"fmt"
 	"math/rand"
+	"sort"
 )
 
 // C03: families of MannWhitneyUTest runs on related inputs under several limit settings.
@@ -229,6 +230,50 @@ func c03Gen(tier string, rng *rand.Rand, emit func(interface{})) {
 				}
 			}
 		}
+	}
+	// (b3) near-equal DISTINCT values (1..8 ulps apart, several magnitudes, mixed with exact ties): the
+	// pair count, hasTies (hence the method: limits (n,n) put the switch exactly on it) and the
+	// invariance under strictly increasing maps must treat them as different values
+	nNear := 60
+	if thorough {
+		nNear = 800
+	}
+	for it := 0; it < nNear; it++ {
+		n1, n2 := 1+rng.Intn(8), 1+rng.Intn(8)
+		if it%10 == 0 {
+			n1, n2 = 12+rng.Intn(14), 12+rng.Intn(14) // the model's exact table stays cheap
+		}
+		x1, x2 := mwNearEqual(rng, n1, n2)
+		mx := n1
+		if n2 > mx {
+			mx = n2
+		}
+		lims := []c03Limits{def, {0, 0}, {mx, 0}, {0, mx}}
+		c := c03Family(rng, x1, x2, lims, false)
+		// a strictly increasing map that separates the near-equal values widely: rank in the pool
+		pool := append(append([]float64{}, x1...), x2...)
+		sort.Float64s(pool)
+		rank := func(v float64) float64 {
+			r := 0
+			for i, p := range pool {
+				if p < v && (i == 0 || pool[i-1] != p) {
+					r++
+				}
+			}
+			return float64(r)
+		}
+		m1 := make([]float64, len(x1))
+		m2 := make([]float64, len(x2))
+		for i, v := range x1 {
+			m1[i] = rank(v)
+		}
+		for i, v := range x2 {
+			m2[i] = rank(v)
+		}
+		for _, lm := range lims {
+			c.Runs = append(c.Runs, mwRun{EL: lm.el, TL: lm.tl, X1: toF64s(m1), X2: toF64s(m2), Alts: allAlts})
+		}
+		emit(c)
 	}
 	// (c) large samples (normal approximation), with and without ties, up to 600
 	nLarge := 40
